@@ -66,9 +66,13 @@ Floors(r) ==
     [] r \in {"d", "v"} -> <<"16777216", "33554432">> [] r = "s" -> <<"8192", "16384">>
     [] r = "u" -> <<"100000", "200000">>
     [] OTHER -> <<>>
+\* (Linux takes a file size limit of 2^63 bytes or more for a negative offset:
+\* every write to a regular file then fails, also those of the test process;
+\* a CPU limit of 2^55 seconds overflows the kernel's nanoseconds and kills it)
 ValuesOf(r) ==
   (IF Sys = "real" /\ Floors(r) # <<>> THEN Floors(r) ELSE <<"0", "1", "5", "1000">>)
-  \o <<Big(r), Over(r)>> \o (IF Scale(r) = 1 THEN <<P.inf>> ELSE <<>>)
+  \o <<IF Sys = "real" /\ Floors(r) # <<>> THEN DStr(DMulAdd(DigitsOf(Floors(r)[2]), 4096, 0)) ELSE Big(r), Over(r)>>
+  \o (IF Scale(r) = 1 THEN <<P.inf>> ELSE <<>>)
 
 ValuesTab == [r \in Resources |-> ValuesOf(r)]
 Values(r) == ValuesTab[r]
@@ -81,7 +85,7 @@ Unsupported == SelectSeq(Ring, LAMBDA r : r \notin P.sup)
 
 FocusSet ==
   CASE Family = "umask" -> {""}
-    [] Family = "calls" -> {"n", "c", "f"} \cap P.sup
+    [] Family = "calls" -> (IF Level = "quick" THEN {"n", "c", "f"} ELSE Resources) \cap P.sup
     [] Family = "ulimit" ->
          (IF Level = "quick" THEN (IF Sys = "real" THEN {"c", "l", "q", "n", "f"} ELSE {"c", "d", "f", "n", "t", "e", "k"})
           ELSE Resources) \cap P.sup
@@ -116,9 +120,8 @@ UlimitFan(r) ==
         One(<<"ulimit", R, "+" \o v>>), One(<<"ulimit", "-z">>), One(<<"ulimit", R, "-z", v>>),
         One(<<"ulimit", "--nosuch">>), One(<<"ulimit", "--no-such=option">>), One(<<"ulimit", "-1">>) >>
   \* all resources
-  \o << One(<<"ulimit", "-a">>), One(<<"ulimit", "-H", "-a">>), One(<<"ulimit", "-S", "-a">>), One(<<"ulimit", "-Ha">>),
-        One(<<"ulimit", "--all">>), One(<<"ulimit", "-a", "-H", "-S">>), One(<<"ulimit", "-a", "0">>),
-        One(<<"ulimit", "-a", "-a">>) >>
+  \o << One(<<"ulimit", "-a">>), One(<<"ulimit", "-H", "-a">>), One(<<"ulimit", "-aS">>),
+        One(<<"ulimit", "--all", "--hard">>), One(<<"ulimit", "-a", "-H", "-S">>), One(<<"ulimit", "-a", "0">>) >>
   \* another resource is not affected; unsupported resources
   \o << One(<<"ulimit", "-" \o o>>), One(<<"ulimit", "-H", "-" \o o>>), One(<<"ulimit", "-S", "-" \o o, "hard">>) >>
   \o Flatten([i \in 1..Len(Unsupported) |->
@@ -127,7 +130,7 @@ UlimitFan(r) ==
   \o << Port(<<"ulimit", R>>), Port(<<"ulimit", "-H", R>>), Port(<<"ulimit", "-S", R, v>>), Port(<<"ulimit", L>>),
         Port(<<"ulimit", "--hard", R>>), Port(<<"ulimit", "-H" \o r>>), Port(<<"ulimit", R, R>>),
         Port(<<"ulimit", "-H", "-H", R>>), Port(<<"ulimit", "-H", "-S", R, v>>), Port(<<"ulimit", "-H", "-S", R>>),
-        Port(<<"ulimit", "-a">>), Port(<<"ulimit", "-a", "-a">>), Port(<<"ulimit", "--all">>),
+        Port(<<"ulimit", "-a", "-a">>), Port(<<"ulimit", "--all">>),
         << <<"set", "-o", "portable">>, <<"set", "+o", "portable">>, <<"ulimit", L>> >> >>
 
 UlimitDrivers(r) ==
@@ -170,10 +173,10 @@ OddModes == <<"u==r", "u+-r", "u=r=w", "+", "-", "=", "a=", "0", "7", "00", "000
 UmCmd(mode) == IF StartsWith(mode, "-") THEN <<"umask", "--", mode>> ELSE <<"umask", mode>>
 UmaskFan(m) ==
   [i \in 1..Len(Single) |-> One(UmCmd(Single[i]))]
-  \o [i \in 1..Len(Sample(TwoActs, IF Level = "quick" THEN 24 ELSE 6, m)) |->
-        One(UmCmd(Sample(TwoActs, IF Level = "quick" THEN 24 ELSE 6, m)[i]))]
-  \o [i \in 1..Len(Sample(TwoClauses, IF Level = "quick" THEN 128 ELSE 32, m)) |->
-        One(UmCmd(Sample(TwoClauses, IF Level = "quick" THEN 128 ELSE 32, m)[i]))]
+  \o [i \in 1..Len(Sample(TwoActs, IF Level = "quick" THEN 24 ELSE 12, m)) |->
+        One(UmCmd(Sample(TwoActs, IF Level = "quick" THEN 24 ELSE 12, m)[i]))]
+  \o [i \in 1..Len(Sample(TwoClauses, IF Level = "quick" THEN 128 ELSE 64, m)) |->
+        One(UmCmd(Sample(TwoClauses, IF Level = "quick" THEN 128 ELSE 64, m)[i]))]
   \o [i \in 1..Len(ThreeParts) |-> One(UmCmd(ThreeParts[i]))]
   \o [i \in 1..Len(BadModes) |-> One(<<"umask", BadModes[i]>>)]
   \o [i \in 1..Len(OddModes) |-> One(UmCmd(OddModes[i]))]
@@ -187,8 +190,10 @@ UmaskFan(m) ==
 
 OctalMode(m) == OctalText(m)
 MaskSet ==
-  IF Level = "quick" THEN {0, 511, 18, 23, 63, 127, 73, 438, 292, 146, 427, 15, 365, 448, 56, 7} \cup {m \in 0..511 : (m * 37) % 512 < 40}
-  ELSE 0..511
+  IF Level = "quick" THEN
+    (IF Sys = "real" THEN {0, 511, 18, 23, 127, 73, 292, 146, 427, 365, 56, 7}
+     ELSE {0, 511, 18, 23, 63, 127, 73, 438, 292, 146, 427, 15, 365, 448, 56, 7} \cup {m \in 0..511 : (m * 37) % 512 < 16})
+  ELSE (IF Sys = "real" THEN {m \in 0..511 : m % 4 = 3} ELSE 0..511)
 UmaskDrivers == {<<"umask", OctalText(m)>> : m \in MaskSet}
 UmaskReadback == << <<"umask">>, <<"umask", "-S">>, <<"sys_umask", "000">> >>
 
@@ -204,8 +209,8 @@ CallFan(r) ==
   \o Cross(RawValues(r), RawValues(r), LAMBDA s, h : One(<<"setrlimit", r, s, h>>))
   \o Flatten([i \in 1..Len(Unsupported) |->
                << One(<<"getrlimit", Unsupported[i]>>), One(<<"setrlimit", Unsupported[i], "0", "0">>) >>])
-  \o << One(<<"sys_umask", "000">>), One(<<"sys_umask", "777">>), One(<<"sys_umask", "027">>),
-        << <<"sys_umask", "653">>, <<"sys_umask", "017">> >> >>
+  \o << One(<<"sys_umask", "000">>), One(<<"sys_umask", "777">>), One(<<"sys_umask", "027">>), One(<<"sys_getumask">>),
+        << <<"sys_umask", "653">>, <<"sys_umask", "017">> >>, << <<"sys_umask", "653">>, <<"sys_getumask">>, <<"sys_getumask">> >> >>
 CallDrivers(r) == RangeOf(Cross(RawValues(r), RawValues(r), LAMBDA s, h : <<"setrlimit", r, s, h>>))
 CallReadback(r) == << <<"getrlimit", r>>, <<"getrlimit", OtherOf(r)>>, <<"sys_umask", "022">> >>
 
@@ -213,7 +218,7 @@ CallReadback(r) == << <<"getrlimit", r>>, <<"getrlimit", OtherOf(r)>>, <<"sys_um
 (* Running a short sequence of commands on the specification: the set of   *)
 (* alternatives [o: <<st, out>> per command, S, unspec].                    *)
 (***************************************************************************)
-IsCall(cmd) == cmd[1] \in {"getrlimit", "setrlimit", "sys_umask"}
+IsCall(cmd) == cmd[1] \in {"getrlimit", "setrlimit", "sys_umask", "sys_getumask"}
 StepAlts(T, cmd) ==
   IF IsCall(cmd) THEN {[o |-> <<0, CallText(cmd, r)>>, S |-> r.S, unspec |-> FALSE] : r \in Calls(P, T, cmd)}
   ELSE {[o |-> <<x.st, Canon(P, x.fmt)>>, S |-> x.S, unspec |-> x.unspec] : x \in Outcomes(P, T, cmd)}
@@ -340,7 +345,7 @@ Emit ==
       rbk == Readback
   IN
   /\ ThmGeneral(fan)
-  /\ (Family = "umask" => ThmUmask)
+  /\ (Family = "umask" /\ Sys = "sim" => ThmUmask)    \* (about the specification only: once)
   /\ ThmUlimit
   /\ PrintT(ToJson([fam |-> Family, foc |-> foc, w |-> w, rb |-> rbk,
                     s |-> [soft |-> IF foc = "" THEN "" ELSE Soft(S, foc), hard |-> IF foc = "" THEN "" ELSE Hard(S, foc), umask |-> S.umask],
